@@ -151,8 +151,9 @@ Definition rec_steps (b : build) (outs : list name) : list step :=
 (* buildTarget after the command has run: StoreTargetMetadata; moveOutputs; calculateAndCheckRuleHash *)
 Definition build_steps (t : target) (b : build) (s : st) : list step :=
   let outs := all_outs t b in
-  [RmMd; CreateMd; WriteMd (if t_mod t then b_dirouts b else [])]
-  ++ moves b outs s
+  let pre := [RmMd; CreateMd; WriteMd (if t_mod t then b_dirouts b else [])] in
+  pre
+  ++ moves b outs (run pre s)
   ++ map SetHash outs
   ++ rec_steps b outs.
 
